@@ -558,6 +558,150 @@ func genBigK(r *vproto.Rng, par [2]int, kind string, i int) *rtwire.Hist {
 	return h
 }
 
+// ring: MORE than eight kept branches below one node, the nearest object under a LATE one in MINDIST
+// order.  All stored objects lie on (just outside) a circle of radius R around the query point except one
+// to three "inner" objects at R-delta.  The leaves are arcs; the box of an arc has an EMPTY corner inside
+// the circle, so its MINDIST is R^2(1 - sin(2θ+Δ)·sinΔ): smallest for the arcs around the diagonals,
+// largest (R^2 cos^2 Δ) for the arcs at the axes - but still below (R-delta)^2 <= every MINMAXDIST, so
+// MINMAXDIST pruning keeps EVERY branch and the arcs at the axes are visited last.  The inner objects sit
+// near the axes (3 of 4) or anywhere.  Branching parameters with MaxChildren 9..25 (and the wide ones
+// 66, 70) and 9..MaxChildren leaves below the root, or height 3 with wide internal nodes.  A search that
+// keeps, visits or sorts only a bounded number of branches answers with an object at R instead of R-delta.
+var ringParams = [][2]int{{4, 9}, {5, 11}, {2, 12}, {6, 12}, {6, 13}, {5, 16}, {8, 16}, {10, 20}, {12, 25}, {2, 11}, {33, 66}, {2, 70}}
+
+func genRing(r *vproto.Rng, par [2]int, kind string, i int) *rtwire.Hist {
+	sc := []float64{1, 1, 0.125, 16, 1.0 / 1024}[r.Intn(5)]
+	h := &rtwire.Hist{Min: par[0], Max: par[1], Kind: kind, Scale: sc, KQs: []rtwire.KQ{},
+		Queries: []rtwire.Box{{MinX: 0, MinY: 0, MaxX: sc, MaxY: sc}}}
+	h.Class = fmt.Sprintf("nn-ring-%s-m%dM%d", kind, par[0], par[1])
+	R := float64(r.Range(200, 1500))
+	cx, cy := float64(r.Range(-2000, 2000)), float64(r.Range(-2000, 2000))
+	M := par[1]
+	fill := (par[0] + M + 1) / 2 // a typical leaf
+	if fill < M*3/5 {
+		fill = M * 3 / 5
+	}
+	leaves := r.Range(9, M+1)
+	if i%5 == 4 && M >= 16 { // height 3: the root's children are wide internal nodes
+		leaves = r.Range(M+2, 2*M)
+	}
+	n := leaves * fill
+	if n > 420 {
+		n = 420
+	}
+	seen := map[[2]float64]bool{}
+	at := func(th, rad float64) (float64, float64) { // lattice point just outside radius rad
+		x, y := rad*math.Cos(th), rad*math.Sin(th)
+		if x >= 0 {
+			x = math.Ceil(x)
+		} else {
+			x = math.Floor(x)
+		}
+		if y >= 0 {
+			y = math.Ceil(y)
+		} else {
+			y = math.Floor(y)
+		}
+		return x, y
+	}
+	box := func(x, y float64) rtwire.Box {
+		b := rtwire.Box{MinX: x, MinY: y, MaxX: x, MaxY: y}
+		if kind != "pt" && r.Chance(0.3) { // grows away from the centre: the near corner stays the lattice point
+			w, v := float64(r.Intn(4)), float64(r.Intn(4))
+			if x >= 0 {
+				b.MaxX += w
+			} else {
+				b.MinX -= w
+			}
+			if y >= 0 {
+				b.MaxY += v
+			} else {
+				b.MinY -= v
+			}
+		}
+		return rtwire.Box{MinX: (b.MinX + cx) * sc, MinY: (b.MinY + cy) * sc, MaxX: (b.MaxX + cx) * sc, MaxY: (b.MaxY + cy) * sc}
+	}
+	arc := 2 * math.Pi
+	if i%3 == 1 { // one quadrant only
+		arc = math.Pi / 2
+	}
+	for tries := 0; len(h.Pool) < n && tries < 20*n; tries++ {
+		th := r.Float() * arc
+		if i%2 == 0 { // evenly spread, jittered
+			th = (float64(len(h.Pool)) + 0.8*r.Float()) / float64(n) * arc
+		}
+		x, y := at(th, R)
+		if seen[[2]float64{x, y}] {
+			continue
+		}
+		seen[[2]float64{x, y}] = true
+		h.Pool = append(h.Pool, box(x, y))
+	}
+	n = len(h.Pool)
+	// the inner objects
+	ninner := 1 + r.Intn(3)
+	for c := 0; c < ninner; c++ {
+		th := r.Float() * arc
+		if r.Chance(0.75) {
+			th = float64(r.Intn(5))*math.Pi/2 + (r.Float()-0.5)*0.2
+			if arc < 2 {
+				th = float64(r.Intn(2))*math.Pi/2 + (1-2*float64(c%2))*r.Float()*0.1
+				if th < 0 {
+					th = -th
+				}
+				if th > arc {
+					th = arc - (th - arc)
+				}
+			}
+		}
+		x, y := at(th, R-float64(3+c+r.Intn(3))-float64(r.Intn(int(R/60))))
+		h.Pool = append(h.Pool, box(x, y))
+	}
+	s := &st{h: h}
+	order := make([]int, n)
+	for j := range order {
+		order[j] = j
+	}
+	if i%4 != 3 { // random order (every fourth case: in the order of the angle)
+		for j := n - 1; j > 0; j-- {
+			k := r.Intn(j + 1)
+			order[j], order[k] = order[k], order[j]
+		}
+	}
+	pos := r.Intn(n + 1)
+	for j, id := range order {
+		if j == pos {
+			for c := 0; c < ninner; c++ {
+				s.ins(n + c)
+			}
+		}
+		s.ins(id)
+	}
+	if pos == n {
+		for c := 0; c < ninner; c++ {
+			s.ins(n + c)
+		}
+	}
+	ask := func() {
+		for c, k := range []int{0, 1, 0, 1, 2, 0, M - 1, M, M + 1, 1, 0} {
+			dx, dy := 0.0, 0.0
+			if c >= 2 {
+				dx, dy = float64(r.Range(-2, 2)), float64(r.Range(-2, 2))
+			}
+			s.ask((cx+dx)*sc, (cy+dy)*sc, k)
+		}
+	}
+	ask()
+	for c := ninner - 1; c >= 0; c-- { // delete the inner objects from the nearest to the farthest ... not quite: any order
+		s.del(n + c)
+		s.ask(cx*sc, cy*sc, c%2)
+		s.ask(cx*sc, cy*sc, 1-c%2)
+	}
+	s.ins(n)
+	ask()
+	return h
+}
+
 func gen(seed uint64, tier string) []*rtwire.Hist {
 	r := vproto.NewRng(seed ^ 0xC12)
 	var hs []*rtwire.Hist
@@ -822,6 +966,13 @@ func gen(seed uint64, tier string) []*rtwire.Hist {
 	for i := 0; i < nround; i++ {
 		par := [][2]int{{2, 4}, {2, 3}, {2, 5}, {3, 6}, {4, 8}, {3, 7}}[i%6]
 		hs = append(hs, genRound(r, par, rtwire.Kinds[(i/6)%3], []int{0, 2, 1, 3, 0, 2, 3, 1}[(i/2)%8], i))
+	}
+	nring := 36
+	if tier == "thorough" {
+		nring = 240
+	}
+	for i := 0; i < nring; i++ {
+		hs = append(hs, genRing(r, ringParams[i%len(ringParams)], rtwire.Kinds[(i/len(ringParams))%3], i))
 	}
 	return hs
 }
